@@ -67,7 +67,7 @@ func (e *Engine) verifyFuncAspect(blk *Block, prop, aspect string) (fv *FuncVer,
 	}
 	bv := strings.HasPrefix(blk.Flags["mode"], "bv")
 	fv = &FuncVer{eng: e, ctx: NewCtx(bv), fn: fn, block: blk, obls: map[string]*Obligation{}, maxPaths: 4096,
-		loopInfos: map[*ssa.Function]*loopAnalysis{}, prop: prop, trustedCalls: map[string]bool{}, heapSorts: map[string]*Sort{}, heapTypes: map[string]types.Type{}, mapKeySorts: map[string]*Sort{}, stepBudget: 4_000_000}
+		loopInfos: map[*ssa.Function]*loopAnalysis{}, prop: prop, trustedCalls: map[string]bool{}, heapSorts: map[string]*Sort{}, heapTypes: map[string]types.Type{}, mapKeySorts: map[string]*Sort{}, hookFired: map[*Clause]bool{}, stepBudget: 4_000_000}
 	if mp, ok := blk.Flags["maxpaths"]; ok {
 		if n, err := strconv.Atoi(mp); err == nil {
 			fv.maxPaths = n
@@ -171,6 +171,17 @@ func (e *Engine) verifyFuncAspect(blk *Block, prop, aspect string) (fv *FuncVer,
 	// vacuity: the precondition must be satisfiable
 	fv.addCover(st, "requires", "precondition is satisfiable")
 	fv.explore(st)
+	// a hook that never fired was written for a call the function does not make (or not by that
+	// name): it would be silently without effect
+	if aspect == "" {
+		for _, kind := range []string{"aftercall", "assumeafter"} {
+			for _, cl := range blk.ClausesOf(kind) {
+				if !fv.hookFired[cl] {
+					panic(specError(fmt.Sprintf("%s %s: no call of that name is made on any explored path", kind, cl.Target)))
+				}
+			}
+		}
+	}
 	fv.finalizeNames()
 	return fv, nil
 }
